@@ -102,7 +102,7 @@ EXPORT errno_t _strlastdiff_s_chk(const char *dest, rsize_t dmax,
     /*
      * find the last diff
      */
-    while (*dest && *src && dmax) {
+    while (dmax && *dest && *src) {
 
         if (*dest != *src) {
             there_is_a_diff = true;
